@@ -92,6 +92,12 @@ class Compiler:
         # Compile the targets.
         c_targets = self._compile_targets(node.targets)
 
+        # Check that DISTINCT rows can be compared: same restriction as for GROUP BY.
+        if node.distinct:
+            for c_target in c_targets:
+                if not issubclass(c_target.c_expr.dtype, collections.abc.Hashable):
+                    raise CompilationError(f'DISTINCT on a non-hashable type is not supported: "{c_target.name}"')
+
         # Bind the WHERE expression to the execution environment.
         c_where = self._compile(node.where_clause)
 
